@@ -147,7 +147,7 @@ def _(c):
 
     # m.load() rewrites the one ManifestFile object on every level that has a Manifest: its fields are arbitrary at the loop
     # head (on a level without a Manifest they are whatever the last level with one left behind)
-    c.loop(1, header='while True', ghosts={'n': Int, 'anyign': Bool}, havoc_fields=['entries', 'openpgp_signed', 'openpgp_signature'],
+    c.loop(1, header='while True', ghosts={'n': Int, 'anyign': Bool}, havoc_fields=[('m', 'entries'), ('m', 'openpgp_signed'), ('m', 'openpgp_signature')],
            ghost_init=lambda s: {'n': z3.IntVal(0), 'anyign': z3.BoolVal(False)}, ghost_update=ghost_update,
            inv=[('levels-walk-upward', inv_core),
                 ('remembers-the-last-manifest-passed',
